@@ -68,18 +68,33 @@ pub trait Spec: Send + Sync + 'static {
 
 pub struct StState<S: Spec> {
     pub sut: Arc<Sut>,
-    pub model: S::M,
+    pub model: Arc<S::M>,
+    /// hash of the model this state stands for (for a state at the depth bound `model`, `sut`
+    /// and `hist` are the parent's: such a state is never expanded, and not materialising it is
+    /// what keeps the frontier - the bulk of all states - out of memory)
+    pub mh: u64,
     pub hist: Arc<Vec<S::Op>>,
+    pub depth: usize,
     pub init: usize,
     pub fp: u64,
+}
+
+fn model_hash<M: Hash>(m: &M) -> u64 {
+    // fixed keys: the same model hashes the same in every worker and every run
+    use std::hash::BuildHasher;
+    let mut h = ahash::RandomState::with_seeds(0x243f_6a88_85a3_08d3, 0x1319_8a2e_0370_7344, 0xa409_3822_299f_31d0, 0x082e_fa98_ec4e_6c89).build_hasher();
+    m.hash(&mut h);
+    h.finish()
 }
 
 impl<S: Spec> Clone for StState<S> {
     fn clone(&self) -> Self {
         StState {
             sut: Arc::clone(&self.sut),
-            model: self.model.clone(),
+            model: Arc::clone(&self.model),
+            mh: self.mh,
             hist: Arc::clone(&self.hist),
+            depth: self.depth,
             init: self.init,
             fp: self.fp,
         }
@@ -87,7 +102,8 @@ impl<S: Spec> Clone for StState<S> {
 }
 impl<S: Spec> PartialEq for StState<S> {
     fn eq(&self, o: &Self) -> bool {
-        self.fp == o.fp && self.hist.len() == o.hist.len() && self.model == o.model
+        // implementation fingerprint (64 bits) and model hash (64 bits, independent hasher)
+        self.fp == o.fp && self.depth == o.depth && self.mh == o.mh
     }
 }
 impl<S: Spec> Hash for StState<S> {
@@ -95,13 +111,13 @@ impl<S: Spec> Hash for StState<S> {
         // implementation fingerprint + model + depth (depth in the key keeps a depth-bounded
         // parallel search deterministic: a state is expanded at every depth it is reached at)
         self.fp.hash(h);
-        self.model.hash(h);
-        self.hist.len().hash(h);
+        self.mh.hash(h);
+        self.depth.hash(h);
     }
 }
 impl<S: Spec> Debug for StState<S> {
     fn fmt(&self, f: &mut std::fmt::Formatter<'_>) -> std::fmt::Result {
-        write!(f, "St{{init {} fp {:#x} model {:?} hist {:?}}}", self.init, self.fp, self.model, self.hist)
+        write!(f, "St{{init {} fp {:#x} depth {} model-hash {:#x}}}", self.init, self.fp, self.depth, self.mh)
     }
 }
 
@@ -165,8 +181,10 @@ impl<S: Spec> Model for StModel<S> {
             .enumerate()
             .map(|(k, (_l, sut, m))| StState {
                 sut: Arc::clone(sut),
-                model: m.clone(),
+                model: Arc::new(m.clone()),
+                mh: model_hash(m),
                 hist: Arc::new(vec![]),
+                depth: 0,
                 init: k,
                 fp: self.spec.fingerprint(&sut.0) ^ (k as u64).wrapping_mul(0x9e3779b97f4a7c15),
             })
@@ -174,10 +192,10 @@ impl<S: Spec> Model for StModel<S> {
     }
 
     fn actions(&self, s: &Self::State, actions: &mut Vec<Self::Action>) {
-        if s.hist.len() >= self.max_depth {
+        if s.depth >= self.max_depth {
             return;
         }
-        actions.extend(self.spec.ops(&s.model, s.hist.len()));
+        actions.extend(self.spec.ops(&s.model, s.depth));
     }
 
     fn next_state(&self, s: &Self::State, op: Self::Action) -> Option<Self::State> {
@@ -252,10 +270,25 @@ impl<S: Spec> Model for StModel<S> {
                         sm.push(json!({"init": self.inits[s.init].0, "history": hist.iter().map(|o| self.spec.op_json(o)).collect::<Vec<_>>()}));
                     }
                 }
+                let mh = model_hash(&m2);
+                if hist.len() >= self.max_depth {
+                    // at the depth bound: checked, counted, never expanded - keep the key only
+                    return Some(StState {
+                        sut: Arc::clone(&s.sut),
+                        model: Arc::clone(&s.model),
+                        mh,
+                        hist: Arc::clone(&s.hist),
+                        depth: s.depth + 1,
+                        init: s.init,
+                        fp,
+                    });
+                }
                 Some(StState {
                     sut: Arc::new(Sut(sut)),
-                    model: m2,
+                    model: Arc::new(m2),
+                    mh,
                     hist: Arc::new(hist),
+                    depth: s.depth + 1,
                     init: s.init,
                     fp,
                 })
